@@ -555,6 +555,12 @@ VOCABS = {
     'numeric-like-registers': dict(mnemonics=['mov', 'ld'], registers=['a', 'b0', 'b1', 'b10', 'ah', 'hl'], macros=['ldm']),
     'macro-extends-mnemonic': dict(mnemonics=['ld', 'st'], registers=['a'], macros=['ldx', 'st2', 'xld']),
     'macro-dotted-extension-of-mnemonic': dict(mnemonics=['nop', 'ld'], registers=['a'], macros=['nop.all', 'st.w']),
+    # language names that need escaping somewhere in the generated files
+    'name-with-double-hyphen': dict(mnemonics=['mov'], registers=['a'], lang='demo--cpu'),
+    'name-with-ampersand': dict(mnemonics=['mov'], registers=['a'], macros=['m2'], lang='r&d'),
+    'name-with-angle-bracket': dict(mnemonics=['mov'], registers=['a'], lang='a<b'),
+    'name-with-quote': dict(mnemonics=['mov'], registers=['a'], lang='say"hi'),
+    'name-with-apostrophe-and-dot': dict(mnemonics=['mov'], registers=['a'], lang="it's.v2"),
     'single-letter': dict(mnemonics=['a', 'b'], registers=['c'], macros=['d'], predefined=['e']),
 }
 
